@@ -1,18 +1,23 @@
 #!/bin/bash
 # Build the overlay venv used by every check (offline, idempotent).
 #   /verif/.venv = venv of /venv's python + .pth to /venv's site-packages
-#   + z3-solver, cvc5, crosshair-tool (and its pure deps) from the offline wheelhouse.
+#   + z3-solver, cvc5, mpmath, crosshair-tool (and its pure deps) from the offline wheelhouse.
 # Nothing is installed into /venv itself; yadism resolves to /repo/src (editable install).
 set -e
 HERE="$(cd "$(dirname "${BASH_SOURCE[0]}")" && pwd)"
 V="$HERE/.venv"
 STAMP="$V/.ok2"
-if [ -f "$STAMP" ] && "$V/bin/python" -c "import z3, numpy, yadism" >/dev/null 2>&1; then
+if [ -f "$STAMP" ] && "$V/bin/python" -c "import z3, numpy, yadism, mpmath" >/dev/null 2>&1; then
   exit 0
 fi
 exec 9>"$HERE/.venv.lock"
 flock 9
+if [ -f "$STAMP" ] && "$V/bin/python" -c "import z3, numpy, yadism, mpmath" >/dev/null 2>&1; then
+  exit 0
+fi
 if [ -f "$STAMP" ] && "$V/bin/python" -c "import z3, numpy, yadism" >/dev/null 2>&1; then
+  # venv from an earlier revision of this script: only mpmath (C04 moment table) is missing
+  PIP_NO_INDEX=1 "$V/bin/pip" install -q --no-index --find-links /opt/veriftools/wheels --no-deps mpmath >/dev/null
   exit 0
 fi
 rm -rf "$V"
@@ -20,8 +25,8 @@ rm -rf "$V"
 SP="$("$V/bin/python" -c 'import sysconfig; print(sysconfig.get_paths()["purelib"])')"
 echo "import site; site.addsitedir('/venv/lib/python3.12/site-packages')" > "$SP/zz_overlay.pth"
 export PIP_NO_INDEX=1
-"$V/bin/pip" install -q --no-index --find-links /opt/veriftools/wheels --no-deps z3-solver cvc5 >/dev/null
+"$V/bin/pip" install -q --no-index --find-links /opt/veriftools/wheels --no-deps z3-solver cvc5 mpmath >/dev/null
 "$V/bin/pip" install -q --no-index --find-links /opt/veriftools/wheels crosshair-tool >/dev/null 2>&1 || \
   "$V/bin/pip" install -q --no-index --find-links /opt/veriftools/wheels --no-deps crosshair-tool typeshed-client typing-inspect pygls lsprotocol importlib-metadata >/dev/null 2>&1 || true
-"$V/bin/python" -c "import z3, numpy, yadism; assert numpy.__version__.startswith('1.26'), numpy.__version__"
+"$V/bin/python" -c "import z3, numpy, yadism, mpmath; assert numpy.__version__.startswith('1.26'), numpy.__version__"
 touch "$STAMP"
